@@ -46,7 +46,8 @@ STRESS_SCENARIOS = {
     "C06": ([], 0, ["hammer"], 60),
     "C08": (["idlewin"], 0, ["idlewin"], 0),
     "C10": (["late", "blocking"], 0, ["late", "blocking"], 0),
-    "C11": (["ids"], 0, ["ids"], 0),
+    "C11": (["ids", "refs"], 0, ["ids", "refs"], 0),
+    "C07": (["refs"], 0, ["refs", "hammer"], 60),
     "C16": (["lazyfut"], 0, ["lazyfut"], 0),
     "C17": (["blocking", "late"], 0, ["blocking", "late", "hammer"], 60),
 }
